@@ -1,5 +1,7 @@
 #!/venv/bin/python
 """Self-test of the checker, both ways (run by hand / by `vp run`; never a registered check):
+   * every repair recorded with a rule in known_findings.json, reversed (selftest/reverts/*.diff, made by tools/make_reverts.py), must make
+     the check of its property fail again with that rule;
    * every seeded change under /verif/seeded/<id>/patch.diff, applied to a scratch copy of /repo, must make the check of the
      property it breaks exit 1 (and name a rule);
    * every benign twin (behaviour-preserving edit computed here) must leave every check silent (exit 0).
@@ -102,6 +104,39 @@ def main():
                     good = rc == 1 and rules
                     print("%s seed %-34s -> %s exit %d rules %s" % ("ok  " if good else "FAIL", sid, prop, rc, rules))
                 ok = ok and good
+        # ---- reverted repairs must be reported again, by the rule recorded for them
+        idx = os.path.join(V, "selftest", "reverts", "index.json")
+        if os.path.exists(idx) and (not only or "reverts" in only):
+            entries = json.load(open(idx))["reverts"]
+            nthreads = 12
+            lanes = [entries[i::nthreads] for i in range(nthreads)]
+
+            def lane(k):
+                out = []
+                if not lanes[k]:
+                    return out
+                repo = os.path.join(scratch, "revert-lane-%d" % k)
+                shutil.copytree(base, repo)
+                for e in lanes[k]:
+                    diff = os.path.join(V, "selftest", "reverts", e["commit"] + ".diff")
+                    p = subprocess.run(["patch", "-p1", "-s", "-i", diff], cwd=repo, capture_output=True, text=True)
+                    if p.returncode != 0:
+                        out.append((e, None, [], "reverse patch does not apply: " + p.stdout[-150:]))
+                        subprocess.run(["patch", "-p1", "-s", "-R", "-i", diff], cwd=repo, capture_output=True, text=True)
+                        continue
+                    rc, rules, tail = run_check(repo, e["property"], os.path.join(scratch, "r-lane-%d" % k))
+                    out.append((e, rc, rules, tail))
+                    subprocess.run(["patch", "-p1", "-s", "-R", "-i", diff], cwd=repo, capture_output=True, text=True)
+                return out
+            with ThreadPoolExecutor(nthreads) as ex:
+                for res in ex.map(lane, range(nthreads)):
+                    for e, rc, rules, tail in res:
+                        want = e["rule"].split(":")[0]
+                        good = rc == 1 and any(r_.split(":")[0] == want or r_.startswith(want) for r_ in rules)
+                        print("%s revert %s %-28s -> %s exit %s rules %s" % ("ok  " if good else "FAIL", e["commit"], e["rule"][:28], e["property"], rc, rules[:4]))
+                        if not good and rc is None:
+                            print("      " + tail)
+                        ok = ok and good
         # ---- benign twins must be silent
         if not only or "benign" in only:
             repo = os.path.join(scratch, "benign")
